@@ -38,6 +38,9 @@ func (c *Conn) handleIdle(dec *imapwire.Decoder) error {
 	c.setReadTimeout(idleReadTimeout)
 	line, isPrefix, err := c.readLine()
 	close(stop)
+	// Always wait for Session.Idle to return: it must not run concurrently
+	// with the next command, nor outlive the connection
+	idleErr := <-done
 	if err == io.EOF {
 		return nil
 	} else if err != nil {
@@ -46,5 +49,5 @@ func (c *Conn) handleIdle(dec *imapwire.Decoder) error {
 		return newClientBugError("Syntax error: expected DONE to end IDLE command")
 	}
 
-	return <-done
+	return idleErr
 }
